@@ -125,6 +125,9 @@ pub enum Ev {
     PskProbe { psk: B, psk_id: B },
     /// raw open with arbitrary bytes on receiver r (no model record involved)
     RawOpen { r: usize, ct: B, aad: B, tag: Option<B> },
+    /// C18: event `ev` of world `w`, executed on worker thread `t` (token passing: exactly one worker
+    /// runs at any time, the others are parked)
+    On { w: usize, t: usize, inner: Box<Ev> },
 }
 
 impl Ev {
@@ -153,6 +156,7 @@ impl Ev {
             Ev::WriteExactProbe { .. } => "WriteExactProbe",
             Ev::PskProbe { .. } => "PskProbe",
             Ev::RawOpen { .. } => "RawOpen",
+            Ev::On { .. } => "On",
         }
     }
 }
